@@ -39,7 +39,8 @@ def simulate(dut, ins, outs, stim, *, probe=None, frag=None, reset_at=()):
         # "every elaboration yields the same hardware": for about a quarter of the runs (chosen by the shape of
         # the run, so that it is reproducible) the design is elaborated once more beforehand and that first
         # result is thrown away; what is simulated is the SECOND elaboration of the same instance
-        if (len(stim) * 7 + len(ins) * 3 + len(outs)) % 4 == 0 and not os.environ.get("VERIF_ELABORATE_ONCE"):
+        if (len(stim) * 7 + len(ins) * 3 + len(outs)) % 4 == 0 and not os.environ.get("VERIF_ELABORATE_ONCE") \
+                and not getattr(dut, "verif_elaborate_once", False):
             try:
                 Fragment.get(dut, None)
             except Exception:
